@@ -15,31 +15,54 @@ PROC = 'adv_shell.core.processing'
 
 
 def port_sides(ctx, callee_name: str) -> Dict[str, str]:
-    """{parameter of `callee_name`: 'provides'|'requires'} from the call in Builder.build: the argument is a
-    CppPorts built from DznElements.provides_ports / requires_ports (that create_dzn_elements fills those two lists
-    by port direction is verified by the C13 justification / C03.sides)."""
+    """{parameter of `callee_name`: 'provides'|'requires'} from the call(s) of it on the way from Builder.build: the argument
+    is a CppPorts built from DznElements.provides_ports / requires_ports - in place, through a local, or by a helper function
+    that is handed one of the two lists (that create_dzn_elements fills those two lists by port direction is verified by the
+    C13 justification / C03.sides)."""
     prog = ctx.prog
-    build = prog.func('adv_shell', 'Builder.build')
     callee = prog.func(PROC, callee_name)
-    env = ctx.cg.env(build)
-    defs: Dict[str, ast.expr] = {}
-    for n in iter_own_nodes(build.node):
-        if isinstance(n, ast.Assign) and len(n.targets) == 1 and isinstance(n.targets[0], ast.Name):
-            defs[n.targets[0].id] = n.value
+
+    def side_of(fn, e, depth=0):
+        if depth > 4 or e is None:
+            return None
+        if isinstance(e, ast.Attribute) and e.attr in ('provides_ports', 'requires_ports'):
+            return e.attr.split('_')[0]
+        if isinstance(e, ast.Name):
+            d = ctx.cg.env(fn).single_def(e.id)
+            return side_of(fn, d, depth + 1) if d is not None else None
+        if isinstance(e, ast.Call):
+            if getattr(e.func, 'id', getattr(e.func, 'attr', '')) == 'CppPorts' and e.args:
+                lc = e.args[0]
+                if isinstance(lc, ast.ListComp) and len(lc.generators) == 1:
+                    return side_of(fn, lc.generators[0].iter, depth + 1)
+                return None
+            gs = [g for g in ctx.cg.env(fn).resolve_call(e) if hasattr(g, 'node')]
+            if len(gs) == 1:
+                g = gs[0]
+                rets = [r.value for r in iter_own_nodes(g.node) if isinstance(r, ast.Return) and r.value is not None]
+                if len(rets) == 1:
+                    r = rets[0]
+                    if isinstance(r, ast.Name):
+                        r = ctx.cg.env(g).single_def(r.id) or r
+                    if isinstance(r, ast.Call) and getattr(r.func, 'id', getattr(r.func, 'attr', '')) == 'CppPorts' and r.args and \
+                            isinstance(r.args[0], ast.ListComp) and len(r.args[0].generators) == 1:
+                        it = r.args[0].generators[0].iter
+                        if isinstance(it, ast.Name) and it.id in [a.arg for a in g.params()]:
+                            bound = prog.bind_call(fn.module, e, g)
+                            return side_of(fn, bound.get(it.id), depth + 1)
+                        return side_of(g, it, depth + 1)
+        return None
     out: Dict[str, str] = {}
-    for c in iter_own_nodes(build.node):
-        if isinstance(c, ast.Call) and any(x is callee for x in env.resolve_call(c)):
-            params = [a.arg for a in callee.params()]
-            bound = {params[i]: a for i, a in enumerate(c.args) if i < len(params)}
-            bound.update({k.arg: k.value for k in c.keywords if k.arg})
-            for pname, arg in bound.items():
-                d = defs.get(arg.id) if isinstance(arg, ast.Name) else arg
-                if isinstance(d, ast.Call) and getattr(d.func, 'id', getattr(d.func, 'attr', '')) == 'CppPorts' and d.args:
-                    lc = d.args[0]
-                    if isinstance(lc, ast.ListComp) and isinstance(lc.generators[0].iter, ast.Attribute):
-                        attr = lc.generators[0].iter.attr
-                        if attr in ('provides_ports', 'requires_ports'):
-                            out[pname] = attr.split('_')[0]
+    for caller, c, _k in ctx.cg.callers(callee):
+        if not isinstance(c, ast.Call):
+            continue
+        bound = prog.bind_call(caller.module, c, callee)
+        for pname, arg in bound.items():
+            sd = side_of(caller, arg)
+            if sd is not None:
+                if out.get(pname, sd) != sd:
+                    return {}
+                out[pname] = sd
     return out
 
 
